@@ -155,6 +155,15 @@ CHECKS = {
         "facility deliveries, location-table entries, LDM objects and trust store.",
         "Sampled streams (<= 14 frames) from four bad-frame generators; bad frames use a source disjoint from the valid ones; forwarding output not compared; the C-V2X loop (vendor library absent) is covered by reading only.",
     ),
+    "C15": (
+        "schedule fuzzing with an owned deterministic scheduler: real threads serialised at bytecode-instruction granularity (sys.settrace opcode events), cooperative locks, virtual timers as actors; hypothesis-generated and systematically enumerated schedules",
+        "The schedule (which runnable actor continues at each preemption point inside router.py / location_table.py) is the generated, shrinkable, "
+        "replayable input. Random schedules with few priority-change points and dense random schedules over drawn 2..4-actor scenarios, plus every "
+        "single-preemption schedule of fixed scenarios, are executed on the real Router; the send log and end state are checked for distinct "
+        "sequence numbers, CBF at-most-once / never-after-cancel, emitted position vectors, exactly-once handling of requests buffered behind a "
+        "location lookup, actor failures and deadlocks (wait-for among cooperative locks).",
+        "Explores bounded scenarios and a preemption bound: finds races, cannot prove their absence; single bytecodes assumed atomic (GIL); deterministic after a per-process tracing warm-up.",
+    ),
 }
 
 NOT_APPLICABLE = {
